@@ -581,6 +581,24 @@ func runC07(r *rep.R) {
 			}
 		}
 	}
+	// both checksums wrong in ways that cancel in a sum over the whole message
+	for _, mb := range reg["ipmi.Message"].Bases {
+		for d := 1; d < 256; d++ {
+			m := append([]byte{}, mb...)
+			m[2] += byte(d)
+			m[len(m)-1] -= byte(d)
+			doReject("checksum", m)
+			// a damaged header byte whose error the *other* checksum absorbs
+			m = append([]byte{}, mb...)
+			m[1] += byte(d)
+			m[len(m)-1] -= byte(d)
+			doReject("checksum", m)
+			m = append([]byte{}, mb...)
+			m[4] += byte(d)
+			m[2] -= byte(d)
+			doReject("checksum", m)
+		}
+	}
 	for _, wb := range append(reg["ipmi.V2Session"].Bases, reg["ipmi.V2Session(authenticated)"].Bases...) {
 		off := 10
 		if wb[1]&0x3f == 0x02 {
